@@ -21,7 +21,7 @@ def c13a(ctx, tu):
                 tgt = lib.strip_casts(e.get("lhs"))
             elif e["e"] == "init" and "field" in e:
                 tgt = ["member", e["field"], ["this"]]
-            if not (isinstance(tgt, list) and tgt[:1] == ["member"] and erase(tgt[1]) == SLOT):
+            if not (isinstance(tgt, list) and tgt[:1] == ["member"] and erase(tgt[1]) == lib.peer_roles(tu).get("slot", SLOT)):
                 continue
             n += 1
             if e["e"] == "init":
@@ -45,7 +45,7 @@ def c13a(ctx, tu):
                    detail="" if ok else why)
         # copy / move constructors must not read the source's slot at all
         if cls == "trompeloeil::null_on_move" and f.rec.get("special") in ("copy_ctor", "move_ctor"):
-            reads = [e for b, e in f.events() if e["e"] == "member" and erase(e["field"]) == SLOT and "param" in str(e.get("base"))]
+            reads = [e for b, e in f.events() if e["e"] == "member" and erase(e["field"]) == lib.peer_roles(tu).get("slot", SLOT) and "param" in str(e.get("base"))]
             ctx.ob("C13.a", f.qe + "/" + f.rec["special"], not reads, pattern=f.pat, unit=tu.name, inst=f.q,
                    detail="" if not reads else "copy / move construction reads the source's monitor slot")
     # the only caller of operator=(T*) is trompeloeil_expect_death, under the lock
@@ -64,8 +64,8 @@ def c13a(ctx, tu):
 def send_classify(tu):
     def classify(fn, ev, env):
         if ev["e"] == "assign":
-            lhs = lib.strip_casts(ev.get("lhs"))
-            if isinstance(lhs, list) and lhs[:1] == ["member"] and erase(lhs[1]) == "trompeloeil::lifetime_monitor::object_monitor":
+            lhs = lib.strip_deref(ev.get("lhs"))
+            if isinstance(lhs, list) and lhs[:1] == ["member"] and erase(lhs[1]) == lib.peer_roles(tu).get("back"):
                 return ("sym", "clear_slot" if ev.get("rhs") == ["null"] else "write_slot")
             return None
         if ev["e"] != "call":
@@ -182,7 +182,7 @@ def c13d(ctx, tu):
     for fn in tu.find("trompeloeil::lifetime_monitor::lifetime_monitor"):
         if fn.rec.get("special"):
             continue
-        inits = [e for b, e in fn.events() if e["e"] == "init" and e.get("field", "").endswith("::object_monitor")]
+        inits = [e for b, e in fn.events() if e["e"] == "init" and erase(e.get("field", "")) == lib.peer_roles(tu).get("back")]
         ok = len(inits) == 1 and "trompeloeil_expect_death" in str(inits[0].get("x")) and "['this']" in str(inits[0].get("x"))
         ctx.ob("C13.d", "trompeloeil::lifetime_monitor::lifetime_monitor", ok, pattern=fn.pat, unit=tu.name, inst=fn.q,
                detail="" if ok else "a new requirement must register itself with the watched object")
